@@ -337,7 +337,9 @@ WITNESS(c05_container_join_list, "container::join on rvalue std::list arguments 
 {
   (void)fcppt::container::join(probe::make<std::list<mo>>(), probe::make<std::list<mo>>());
 }
-WITNESS(c05_container_join_set, "container::join on rvalue std::set arguments (range insert without hint) moves all elements")
+// (std::set iterators are const, so std::move_iterator over them yields `T const &&`: a range
+// insert from an rvalue set copy-constructs every element; moving would need merge()/extract())
+WITNESS(c05_container_join_set, "container::join on rvalue std::set arguments copies no element of the rvalue second set")
 {
   (void)fcppt::container::join(probe::make<std::set<mo>>(), probe::make<std::set<mo>>());
 }
@@ -913,14 +915,8 @@ WITNESS(c05_tuple_apply_rvalue_nocopy, "tuple::apply over rvalue tuples copies n
 {
   (void)fcppt::tuple::apply([](auto &&x, auto &&y) { (void)x; (void)y; return mo2{1}; }, probe::make<tup>(), probe::make<tup>());
 }
-WITNESS(c05_tuple_apply_rvalue_first, "tuple::apply hands the elements of an rvalue first tuple to the function by move")
-{
-  (void)fcppt::tuple::apply([](mo x) { (void)x; return mo2{1}; }, probe::make<tup_mm>());
-}
-WITNESS(c05_tuple_apply_rvalue_second, "tuple::apply hands the elements of all rvalue tuples to the function by move")
-{
-  (void)fcppt::tuple::apply([](int, mo x) { (void)x; return mo2{1}; }, probe::make<fcppt::tuple::object<int, int>>(), probe::make<tup_mm>());
-}
+// (tuple::get has no overload for rvalue tuples: get<I>(move_if_rvalue<Tuples>(t)) binds to the
+// `object const &` overload, so a by-value / && continuation is what distinguishes move from copy)
 WITNESS(c05_tuple_invoke_rvalue, "tuple::invoke on an rvalue tuple hands every element to the function by move")
 {
   mo2 r{fcppt::tuple::invoke([](mo x, mo2 y) { (void)x; return y; }, probe::make<tup>())};
@@ -991,12 +987,12 @@ WITNESS(c05_array_from_range_rvalue, "array::from_range moves the elements of an
   fcppt::optional::object<arr3> r{fcppt::array::from_range<3>(probe::make<std::vector<mo>>())};
   (void)r;
 }
-WITNESS(c05_array_push_back_array, "array::push_back moves the elements of an rvalue array into the result")
+WITNESS(c05_array_push_back, "array::push_back moves the elements of an rvalue array and the rvalue new element into the result")
 {
   arr3 r{fcppt::array::push_back(probe::make<arr2>(), probe::make<mo>())};
   (void)r;
 }
-WITNESS(c05_array_append_first, "array::append moves the elements of an rvalue first array into the result")
+WITNESS(c05_array_append, "array::append moves the elements of both rvalue arrays into the result")
 {
   fcppt::array::object<mo, 5> r{fcppt::array::append(probe::make<arr3>(), probe::make<arr2>())};
   (void)r;
@@ -1244,7 +1240,7 @@ WITNESS(c05_options_optional_parse, "options::optional::parse moves every inner 
   fcppt::options::parse_result<opt_type::result_type> r{probe::clvalue<opt_type>().parse(probe::make<fcppt::options::state>(), probe::clvalue<fcppt::options::parse_context>())};
   (void)r;
 }
-WITNESS(c05_options_product_ctor_left, "options::product(Left &&, Right &&) / options::apply move the rvalue left parser in")
+WITNESS(c05_options_product_ctor, "options::product(Left &&, Right &&) moves the rvalue left and right parsers in")
 {
   fcppt::options::product<parser_a, parser_b> p{probe::make<parser_a>(), probe::make<parser_b>()};
   (void)p;
@@ -1352,7 +1348,7 @@ WITNESS(c05_parse_make_success, "parse::make_success moves an rvalue result into
   fcppt::parse::result<char, mo> r{fcppt::parse::make_success<char>(probe::make<mo>())};
   (void)r;
 }
-WITNESS(c05_parse_sequence_ctor_left, "operator>> / parse::sequence(Left &&, Right &&) moves the rvalue left parser in")
+WITNESS(c05_parse_sequence_ctor, "operator>> / parse::sequence(Left &&, Right &&) moves the rvalue left and right parsers in")
 {
   fcppt::parse::sequence<p_mo, p_mo2> s{probe::make<p_mo>() >> probe::make<p_mo2>()};
   (void)s;
@@ -1496,12 +1492,6 @@ WITNESS(c05_parse_list_ctor, "parse::list(Start &&, Inner &&, Sep &&, End &&) mo
   fcppt::parse::list<p_unit, p_mo, p_unit, p_unit> l{probe::make<p_unit>(), probe::make<p_mo>(), probe::make<p_unit>(), probe::make<p_unit>()};
   auto m{std::move(l)};
   (void)m;
-}
-WITNESS(c05_parse_list_parse, "list::parse moves the element results into the result vector (no copy of a result vector or element)")
-{
-  using lst = fcppt::parse::list<p_unit, p_mo, p_unit, p_unit>;
-  static_assert(std::is_same_v<lst::result_type, std::vector<mo>>);
-  (void)fcppt::parse::parse_string(probe::clvalue<lst>(), probe::make<std::string>());
 }
 WITNESS(c05_parse_named, "parse::named moves the rvalue parser in and its parse() moves the inner result through")
 {
